@@ -244,6 +244,8 @@ struct Run<'a> {
     sut: Option<Sut>,
     lpp: Lpp,
     crashed_in_last_import: bool,
+    /// the importer proper ran through all its steps in the most recent import attempt and returned Ok
+    last_import_completed: bool,
     rolled_into_pruned_range: bool,
     /// lowest point of the forks the node switched to since the importer last talked to it
     undelivered_fork_floor: Option<u64>,
@@ -344,6 +346,11 @@ impl Run<'_> {
                 true
             }
             Ev::Prune(keep) => {
+                // `ChainDataImporterWithPruner` prunes right after the wrapped importer returned Ok, never after an
+                // import that was killed, failed, or was not run at all (chunk decorator)
+                if !self.last_import_completed {
+                    return false;
+                }
                 let before = read_tables(&self.db);
                 let r = self.sut.as_ref().unwrap().prune(keep).await;
                 let after = read_tables(&self.db);
@@ -404,6 +411,11 @@ impl Run<'_> {
         let post = read_tables(&self.db);
         let error = sign_blocks.as_ref().err().or(sign_legacy.as_ref().and_then(|r| r.as_ref().err())).cloned();
         let node_timeout = served.iter().any(|s| matches!(s, Served::Timeout));
+        // the importer proper went through its last step (legacy range roots, then optimize); an error of the signable
+        // builder afterwards (root of an empty map) does not undo the import
+        let last_legacy_step = served.iter().rposition(|s| matches!(s, Served::LegacyRangeStep));
+        let last_optimize = served.iter().rposition(|s| matches!(s, Served::Optimized));
+        self.last_import_completed = matches!((last_legacy_step, last_optimize), (Some(l), Some(o)) if l < o) && !self.sut.as_ref().unwrap().crashed();
 
         // --- bookkeeping of what happened (from the node's side of the wire) --------------------
         let mut scans = 0;
@@ -495,7 +507,7 @@ impl Run<'_> {
                         l.1 = true;
                     }
                 }
-                Served::Await => {}
+                Served::Await | Served::LegacyRangeStep | Served::Optimized => {}
             }
         }
         if intersect_not_found {
@@ -537,18 +549,8 @@ impl Run<'_> {
             self.rolled_into_pruned_range = true;
         }
         self.crashed_in_last_import = self.sut.as_ref().unwrap().crashed();
-        if self.crashed_in_last_import {
-            // the process died inside the import: nothing to judge now; a new process starts on the same database
-            N_CRASHED_IMPORTS.fetch_add(1, Ordering::Relaxed);
-            self.sut = None;
-            self.sut = Some(Sut::start(&self.db, self.server.clone(), self.cfg));
-            self.lpp = Lpp::None;
-            self.outcome = "import:process-killed-before-range-roots|restarted".into();
-            return;
-        }
-        self.sut.as_ref().unwrap().disarm_crash();
-        if node_timeout && below_first {
-            // the failed import is not judged as a whole, but the roll-back it delivered must have removed the blocks
+        if (node_timeout || self.crashed_in_last_import) && below_first {
+            // the failed or killed import is not judged as a whole, but the roll-back it delivered must have removed the blocks
             // above its point: blocks that are not on the node's chain may not survive it
             let on_chain: std::collections::HashSet<String> = chain.iter().map(|b| b.hash_hex()).collect();
             if let Some(stale) = post.blocks.iter().find(|b| !on_chain.contains(&b.2)) {
@@ -571,6 +573,17 @@ impl Run<'_> {
                 return;
             }
         }
+        self.crashed_in_last_import = self.sut.as_ref().unwrap().crashed();
+        if self.crashed_in_last_import {
+            // the process died inside the import: nothing to judge now; a new process starts on the same database
+            N_CRASHED_IMPORTS.fetch_add(1, Ordering::Relaxed);
+            self.sut = None;
+            self.sut = Some(Sut::start(&self.db, self.server.clone(), self.cfg));
+            self.lpp = Lpp::None;
+            self.outcome = "import:process-killed-before-range-roots|restarted".into();
+            return;
+        }
+        self.sut.as_ref().unwrap().disarm_crash();
         if let Some(e) = &error {
             N_IMPORT_ERRORS.fetch_add(1, Ordering::Relaxed);
             if node_timeout {
@@ -623,15 +636,17 @@ impl Run<'_> {
                 && (subset(&node_part.legacy_roots, &expected.legacy_roots) || node_part.legacy_roots == expected.legacy_roots);
             let key = if below_first {
                 "C13/rollback-before-first-stored-block-removes-nothing"
-            } else if echo_after_forwards {
+            } else if echo_after_forwards && !only_roots_differ {
+                // the symptom of a skipped roll-back is blocks of the abandoned branch that stay
                 "C13/rollback-to-scan-start-point-ignored-mid-scan"
             } else if cursor_behind_store {
                 "C13/failed-scan-leaves-cursor-behind-stored-blocks-then-rollback-taken-for-acknowledgement"
             } else if self.cfg.chunk.is_some() && scans == 0 && roots_missing && !undelivered_fork {
                 "C13/chunk-decorator-skips-range-root-steps-when-blocks-already-stored"
-            } else if undelivered_fork && error.is_none() {
+            } else if undelivered_fork {
+                // (an error of the root computation on the stale or incomplete tables included)
                 "C13/import-skipped-when-target-already-stored-misses-rollback"
-            } else if into_pruned_range && only_roots_differ && error.is_none() {
+            } else if into_pruned_range && only_roots_differ {
                 "C13/rollback-into-partly-pruned-range-recomputes-root-from-remaining-blocks"
             } else if error.is_some() {
                 "C13/import-error-leaves-tables-diverged"
@@ -769,7 +784,7 @@ impl Run<'_> {
         let t = read_tables(&self.db);
         let s = self.server.lock().unwrap();
         format!(
-            "batch={} pallas_agency={} chunk={:?} | chain[{}] next_branch={} armed={:?} follower={:?} | db blocks[{}] tx={:x} roots={:x}/{} legacy={:x}/{} | lpp={:?} pruned={}",
+            "batch={} pallas_agency={} chunk={:?} | chain[{}] next_branch={} armed={:?} follower={:?} | db blocks[{}] tx={:x} roots={:x}/{} legacy={:x}/{} | lpp={:?} pruned={} import_completed={}",
             self.cfg.max_roll_forwards,
             self.cfg.pallas_agency,
             self.cfg.chunk,
@@ -784,7 +799,8 @@ impl Run<'_> {
             hash64(&t.legacy_roots),
             t.legacy_roots.len(),
             self.lpp,
-            self.pruned
+            self.pruned,
+            self.last_import_completed
         )
     }
 }
@@ -798,7 +814,7 @@ fn describe_served(served: &[Served]) -> String {
         }
     };
     for s in served {
-        if matches!(s, Served::Stored { .. }) {
+        if matches!(s, Served::Stored { .. } | Served::LegacyRangeStep | Served::Optimized) {
             continue;
         }
         match s {
@@ -818,7 +834,7 @@ fn describe_served(served: &[Served]) -> String {
                     Served::Await => "Await".into(),
                     Served::Timeout => "timeout".into(),
                     Served::ForkDuringScan { to } => format!("<node switches to a fork at block {to}>"),
-                    Served::Forward(_) | Served::Stored { .. } => unreachable!(),
+                    Served::Forward(_) | Served::Stored { .. } | Served::LegacyRangeStep | Served::Optimized => unreachable!(),
                 });
             }
         }
@@ -863,6 +879,7 @@ fn replay_inner(scratch: &Path, cfg: Cfg, mode: Mode, fresh: &FreshCache, histor
             sut: None,
             lpp: Lpp::None,
             crashed_in_last_import: false,
+            last_import_completed: false,
             rolled_into_pruned_range: false,
             undelivered_fork_floor: None,
             pruned: false,
